@@ -115,3 +115,18 @@ def scaled(n: int) -> int:
     except ValueError:
         f = 1.0
     return max(1, int(n * f))
+
+
+def ensure_model_translation() -> Optional[str]:
+    """When T0 for the front end fails on the tree under test (fail-closed translator), put the
+    last accepted translation (coq/ref/GenFront.v) in place, so that the model the ties run
+    against is the reference one and not a stale gen file; the failure itself is reported by
+    Check.try_prove."""
+    import shutil
+    import translate_front
+    try:
+        translate_front.gen_front()
+        return None
+    except Broken as b:
+        shutil.copy(os.path.join(VERIF, "coq", "ref", "GenFront.v"), os.path.join(VERIF, "coq", "gen", "GenFront.v"))
+        return b.what
